@@ -328,6 +328,30 @@ func (fr *frame) loopEnv(h *ssa.BasicBlock, phiVals map[*ssa.Phi]SV, cur *State)
 			}
 		}
 	}
+	// a variable merged by a phi in a dominating block (e.g. a named result assigned in both arms of an if before the
+	// loop) and not mentioned by any DebugRef: the closest dominating phi carries its value
+	for _, b := range fr.fn.Blocks {
+		if !b.Dominates(h) || b == h {
+			continue
+		}
+		for _, ins := range b.Instrs {
+			phi, ok := ins.(*ssa.Phi)
+			if !ok {
+				break
+			}
+			if phi.Comment == "" {
+				continue
+			}
+			sv, have := fr.env[phi]
+			if !have {
+				continue
+			}
+			if pb := best[phi.Comment]; pb == nil || (pb != b && pb.Dominates(b)) {
+				best[phi.Comment] = b
+				env.vars[phi.Comment] = sv
+			}
+		}
+	}
 	// named locals that live in a cell (named results of functions with defer, escaping locals) and have no
 	// DebugRef before the loop: the name denotes the value currently stored in the cell
 	for _, b := range fr.fn.Blocks {
@@ -934,6 +958,11 @@ func (fr *frame) execValue(v ssa.Value, cur *State) SV {
 		return fr.doCall(&x.Call, args, cur, x)
 	case *ssa.MakeInterface:
 		s := fr.val(x.X)
+		if vc.sortOf(x.Type()) != "Iface" && vc.sortOf(x.Type()) == vc.sortOf(x.X.Type()) {
+			// value mode: an interface type with an abstract sort of its own (sdk.Ctx) boxed from the concrete type of
+			// the same sort (sdk.Context): the same value
+			return SV{t: s.t, typ: x.Type()}
+		}
 		boxed := s
 		return SV{t: vc.makeIface(s), typ: x.Type(), dyn: &boxed}
 	case *ssa.ChangeInterface:
